@@ -84,7 +84,7 @@ fn ref_exact(answers: &[(usize, Ans)], need: usize) -> Result<(Expect, usize), (
                 return Ok((Expect::Eof, moved));
             }
             Ans::N(n) => moved += n,
-            Ans::Interrupted => {}
+            Ans::Interrupted | Ans::Pending => {}
             Ans::Error => {
                 if !last {
                     return fail("continues-after-error", format!("call #{i} failed but the helper kept going"));
@@ -195,7 +195,7 @@ fn sc_read_to_end(rep: &Report, bound: u32, len: usize, cap: usize, data_len: us
                     }
                 }
                 Ans::N(n) => delivered += n,
-                Ans::Interrupted => {}
+                Ans::Interrupted | Ans::Pending => {}
                 Ans::Error => {
                     exp = Expect::Other;
                     if !last {
